@@ -108,6 +108,15 @@ Example C24_example_funclit :
      mkWord 8 xgo_LBRACE; mkWord 9 xgo_RBRACE; mkWord 10 xgo_LPAREN; mkWord 11 xgo_RPAREN; mkWord 12 xgo_SEMICOLON]
   = Ok [120;10;102;117;110;99;40;41;123;125;40;41;10]%N.
 Proof. vm_compute. reflexivity. Qed.
+(* a comment between func and '(' is transparent:  x\nfunc/**/(){}()\n  is a statement, not a declaration *)
+Example C24_example_comment_after_func :
+  rearrange [120;10;102;117;110;99;47;42;42;47;40;41;123;125;40;41;10; 102;117;110;99;32;102;40;41;123;125;10]%N
+    [mkWord 0 xgo_IDENT; mkWord 1 xgo_SEMICOLON; mkWord 2 xgo_FUNC; mkWord 6 xgo_COMMENT; mkWord 10 xgo_LPAREN;
+     mkWord 11 xgo_RPAREN; mkWord 12 xgo_LBRACE; mkWord 13 xgo_RBRACE; mkWord 14 xgo_LPAREN; mkWord 15 xgo_RPAREN;
+     mkWord 16 xgo_SEMICOLON; mkWord 17 xgo_FUNC; mkWord 22 xgo_IDENT; mkWord 23 xgo_LPAREN; mkWord 24 xgo_RPAREN;
+     mkWord 25 xgo_LBRACE; mkWord 26 xgo_RBRACE; mkWord 27 xgo_SEMICOLON]
+  = Ok [102;117;110;99;32;102;40;41;123;125;10; 120;10;102;117;110;99;47;42;42;47;40;41;123;125;40;41;10]%N.
+Proof. vm_compute. reflexivity. Qed.
 (* offsets out of range do make the model panic: the tiling hypothesis is not redundant *)
 Example C24_example_panic_without_tiling :
   rearrange [120]%N [mkWord 5 xgo_IDENT; mkWord 6 xgo_SEMICOLON] = Panic.
